@@ -41,6 +41,9 @@ class _Break(EngineError):
 class _Continue(EngineError):
     pass
 
+class _Reraise(EngineError):
+    """A bare `raise` inside an except block."""
+
 
 class IFunc(object):
     """Function created by interpreted code (nested def or lambda)."""
@@ -450,7 +453,10 @@ class Interp(object):
                         raise
                     if h.name:
                         frame.locals[h.name] = e
-                    yield from self.gexec_block(h.body, frame)
+                    try:
+                        yield from self.gexec_block(h.body, frame)
+                    except _Reraise:
+                        raise e
                 else:
                     yield from self.gexec_block(s.orelse, frame)
             finally:
@@ -659,7 +665,7 @@ class Interp(object):
 
     def x_Raise(self, s, frame):
         if s.exc is None:
-            raise Unsupported('bare raise outside handler')  # handled in x_Try
+            raise _Reraise()  # resolved by the enclosing except block
         e = self.eval(s.exc, frame)
         if isinstance(e, type):
             e = self.call(e, [], {})
@@ -709,10 +715,8 @@ class Interp(object):
         """Run an except body; a bare `raise` re-raises e."""
         try:
             self.exec_block(h.body, frame)
-        except Unsupported as u:
-            if 'bare raise outside handler' in str(u):
-                raise e
-            raise
+        except _Reraise:
+            raise e
 
     def x_With(self, s, frame):
         self._with(s, 0, frame)
